@@ -200,6 +200,9 @@ fn check(id: &str, tier: Tier) -> i32 {
                     format!("worker process died (abort/stack overflow/kill) on this case: {}", why),
                     case,
                 );
+                if let Some(v) = rep.violations.last_mut() {
+                    v.shard = Some(*shard);
+                }
             }
             None => machinery_fail.push(format!("shard {} crashed and the case could not be identified: {}", shard, why)),
         }
